@@ -1,0 +1,70 @@
+//go:build verif
+
+// Contracts for package metric_registry/datadog, read by /verif's gcv (comment-only file).
+package datadog
+
+//@ type MetricRegistry
+//@   guarded mu: registeredGauges, registeredListeners, started
+//@   immutable: prefix, pollFrequency, stopper, client
+//@   inv deps: this.registeredGauges != nil && this.registeredListeners != nil && this.stopper != nil
+
+//@ type metricSampleListener
+//@   immutable: id, metricType, client
+
+//@ func (*MetricRegistry).Start
+//@   maintains r
+//@   ensures[C20] starts_once: !old(r.started) ==> r.started && ncalls("go (*metric_registry/datadog.MetricRegistry).Start$1") == 1 && ncalls("(*sync.WaitGroup).Add") == 1
+//@   ensures[C20] idempotent: old(r.started) ==> r.started && ncalls("go (*metric_registry/datadog.MetricRegistry).Start$1") == 0 && ncalls("(*sync.WaitGroup).Add") == 0
+//@   owns[C17]
+
+//@ func (*MetricRegistry).Stop
+//@   maintains r
+//@   ensures[C20] stops_poller: old(r.started) ==> !r.started && ncalls("chan.send") == 1 && callrecv("chan.send", 0) == r.stopper && ncalls("(*sync.WaitGroup).Wait") == 1 && callpos("chan.send", 0) < callpos("(*sync.WaitGroup).Wait", 0)
+//@   ensures[C20] waits_without_the_lock: old(r.started) ==> !calledUnder("(*sync.WaitGroup).Wait", 0, r.mu) && !calledUnder("chan.send", 0, r.mu)
+//@   ensures[C20] idempotent: !old(r.started) ==> !r.started && ncalls("chan.send") == 0 && ncalls("(*sync.WaitGroup).Wait") == 0
+//@   owns[C17]
+
+//@ func (*MetricRegistry).Start$1
+//@   requires objs: r != nil && inv(r)
+//@   ensures[C20] runs_then_done: ncalls("(*metric_registry/datadog.MetricRegistry).run") == 1 && ncalls("(*sync.WaitGroup).Done") == 1 && callpos("(*metric_registry/datadog.MetricRegistry).run", 0) < callpos("(*sync.WaitGroup).Done", 0)
+
+//@ func (*MetricRegistry).run
+//@   maintains r
+//@   loop 1 invariant[C20] waits_on_stop_or_tick: true
+//@   loop 2 invariant[C20,C17] polls_under_lock: held(r.mu)
+//@   ensures[C20] returns_only_on_stop: ncallsIter("select") == 1 && callresIter("select", 0, 0) == 0 && callargIter("select", 0, 0) == r.stopper
+//@   owns[C17]
+
+//@ func (*MetricRegistry).RegisterGauge
+//@   maintains r
+//@   ensures[C20] registered: has(r.registeredGauges, regID(ID)) && (old(has(r.registeredGauges, regID(ID))) ==> r.registeredGauges[regID(ID)] == old(r.registeredGauges[regID(ID)]))
+//@   ensures[C20] new_poller: !old(has(r.registeredGauges, regID(ID))) ==> fresh(r.registeredGauges[regID(ID)]) && r.registeredGauges[regID(ID)].supplier == supplier && r.registeredGauges[regID(ID)].id == regID(ID)
+//@   owns[C17]
+//@ define regID(id string) string = ite(strHasPrefix(id, "."), strTrimPrefix(id, "."), id)
+
+//@ func (*MetricRegistry).RegisterDistribution
+//@   maintains r
+//@   ensures[C20] reuse: old(has(r.registeredListeners, regID(ID))) ==> ref(result) == old(r.registeredListeners[regID(ID)])
+//@   ensures[C20] new_listener: !old(has(r.registeredListeners, regID(ID))) ==> dyntype(result, "*metric_registry/datadog.metricSampleListener") && fresh(ref(result)) && as(result, "*metric_registry/datadog.metricSampleListener").metricType == 0 && as(result, "*metric_registry/datadog.metricSampleListener").id == r.prefix + regID(ID) && r.registeredListeners[regID(ID)] == ref(result)
+//@   ensures[C20] nonnil: old(forall k string :: has(r.registeredListeners, k) ==> r.registeredListeners[k] != nil) ==> result != nil
+//@   owns[C17]
+//@ func (*MetricRegistry).RegisterTiming
+//@   maintains r
+//@   ensures[C20] reuse: old(has(r.registeredListeners, regID(ID))) ==> ref(result) == old(r.registeredListeners[regID(ID)])
+//@   ensures[C20] new_listener: !old(has(r.registeredListeners, regID(ID))) ==> dyntype(result, "*metric_registry/datadog.metricSampleListener") && fresh(ref(result)) && as(result, "*metric_registry/datadog.metricSampleListener").metricType == 1 && as(result, "*metric_registry/datadog.metricSampleListener").id == r.prefix + regID(ID) && r.registeredListeners[regID(ID)] == ref(result)
+//@   owns[C17]
+//@ func (*MetricRegistry).RegisterCount
+//@   maintains r
+//@   ensures[C20] reuse: old(has(r.registeredListeners, regID(ID))) ==> ref(result) == old(r.registeredListeners[regID(ID)])
+//@   ensures[C20] new_listener: !old(has(r.registeredListeners, regID(ID))) ==> dyntype(result, "*metric_registry/datadog.metricSampleListener") && fresh(ref(result)) && as(result, "*metric_registry/datadog.metricSampleListener").metricType == 2 && as(result, "*metric_registry/datadog.metricSampleListener").id == r.prefix + regID(ID) && r.registeredListeners[regID(ID)] == ref(result)
+//@   owns[C17]
+
+//@ func (*metricPoller).poll
+//@   ensures[C20] polls_supplier: ncalls("funcvalue:metric_registry/datadog.metricPoller.supplier") == 1 && ret0 == p.id && ret1 == callres("funcvalue:metric_registry/datadog.metricPoller.supplier", 0, 0) && ret3 == callres("funcvalue:metric_registry/datadog.metricPoller.supplier", 0, 1)
+
+//@ func (*metricSampleListener).AddSample
+//@   requires objs: l.client != nil && isFinite(value) && -4.0e18 <= value && value <= 4.0e18
+//@   ensures[C20] distribution: l.metricType == 0 ==> ncalls("(*github.com/DataDog/datadog-go/v5/statsd.Client).Distribution") == 1 && callarg("(*github.com/DataDog/datadog-go/v5/statsd.Client).Distribution", 0, 1) == l.id && callarg("(*github.com/DataDog/datadog-go/v5/statsd.Client).Distribution", 0, 2) == value && ncalls("(*github.com/DataDog/datadog-go/v5/statsd.Client).TimeInMilliseconds") == 0 && ncalls("(*github.com/DataDog/datadog-go/v5/statsd.Client).Count") == 0
+//@   ensures[C20] timing: l.metricType == 1 ==> ncalls("(*github.com/DataDog/datadog-go/v5/statsd.Client).TimeInMilliseconds") == 1 && callarg("(*github.com/DataDog/datadog-go/v5/statsd.Client).TimeInMilliseconds", 0, 1) == l.id && callarg("(*github.com/DataDog/datadog-go/v5/statsd.Client).TimeInMilliseconds", 0, 2) == value && ncalls("(*github.com/DataDog/datadog-go/v5/statsd.Client).Distribution") == 0 && ncalls("(*github.com/DataDog/datadog-go/v5/statsd.Client).Count") == 0
+//@   ensures[C20] count: l.metricType == 2 ==> ncalls("(*github.com/DataDog/datadog-go/v5/statsd.Client).Count") == 1 && callarg("(*github.com/DataDog/datadog-go/v5/statsd.Client).Count", 0, 1) == l.id && callarg("(*github.com/DataDog/datadog-go/v5/statsd.Client).Count", 0, 2) == int(value) && ncalls("(*github.com/DataDog/datadog-go/v5/statsd.Client).Distribution") == 0 && ncalls("(*github.com/DataDog/datadog-go/v5/statsd.Client).TimeInMilliseconds") == 0
+//@   ensures[C20] unknown_kind_ignored: l.metricType > 2 ==> nevents() == 0
